@@ -15,7 +15,7 @@
    the program, whose functions are listed callers first (the translator orders them and refuses
    recursion), so every function can call exactly the ones after it. *)
 From Coq Require Import String.
-From CCT Require Import Prelude Hex Num Json.
+From CCT Require Import Prelude Hex Num Time Json.
 Open Scope N_scope.
 
 Inductive cmpop := CEq | CNotEq | CLt | CLtE | CGt | CGtE | CIn | CNotIn.
@@ -32,6 +32,7 @@ Inductive expr :=
  | ESub (o k : expr)                              (* o[k] *)
  | EList (l : list expr)
  | ESet (l : list expr)                           (* {a, b}: a set display *)
+ | EListComp (elt : expr) (x : string) (it : expr)   (* [elt for x in it] *)
  | ETypeIn (o : expr) (classes : list string)     (* type(o) in NAME, NAME a module-level tuple of builtin classes, resolved by the translator *)
  | EUnsupported (what : string).
 
@@ -44,6 +45,7 @@ Inductive stmt :=
  | STry (body : list stmt) (handlers : list (list string * list stmt))
  | SFor (x : string) (it : expr) (body : list stmt)
  | SPass
+ | SAssert (e : expr)
  | SUnsupported (what : string).
 
 Record fundef := { fparams : list string; fbody : list stmt }.
@@ -221,6 +223,9 @@ Definition has_attr (v : pv) (a : string) : res bool :=
   if String.eqb a "decode" then Ok (match v with VBytes _ | VBytearray _ => true | _ => false end)
   else Unmodelled.
 
+Fixpoint py_all (l : list pv) : res pv :=
+  match l with [] => Ok (VBool true) | x :: r => t <- truth x ;; if (t : bool) then py_all r else Ok (VBool false) end.
+
 Definition call_builtin (f : string) (args : list pv) : res pv :=
   if String.eqb f "len" then
     match args with [v] => n <- py_len v ;; Ok (VInt (Z.of_nat n)) | _ => Err TypeError end
@@ -234,6 +239,17 @@ Definition call_builtin (f : string) (args : list pv) : res pv :=
     match args with
     | [VStr _] | [VBytes _] | [VBytearray _] => Unmodelled
     | [v] => r <- py_int v ;; match r with IntIs z _ => Ok (VInt z) end
+    | _ => Unmodelled
+    end
+  else if String.eqb f "all" then                (* all(list) *)
+    match args with
+    | [VList l] => py_all l
+    | _ => Unmodelled
+    end
+  else if String.eqb f "datetime.strptime" then  (* only with the format of the package; the object returned is not inspected *)
+    match args with
+    | [VStr s; VStr fmt] => if ustr_eqb fmt (U"%Y-%m-%dT%H:%M:%SZ") then (if utc_ok s then Ok (VObj 0) else Err ValueError) else Unmodelled
+    | [_; VStr fmt] => if ustr_eqb fmt (U"%Y-%m-%dT%H:%M:%SZ") then Err TypeError else Unmodelled
     | _ => Unmodelled
     end
   else if String.eqb f "sorted" then
@@ -287,6 +303,18 @@ Section Interp.
                   match kv with VStr ks => subscript ov ks | _ => Unmodelled end
     | EList l => vs <- evals l ;; Ok (VList vs)
     | ESet l => vs <- evals l ;; Ok (VSet vs)
+    | EListComp elt x it =>
+        iv <- eval r it ;;
+        match iv with
+        | VList vs | VTuple vs =>
+            (fix each (vs : list pv) : res pv :=
+               match vs with
+               | [] => Ok (VList [])
+               | a :: vs' => v <- eval ((x, a) :: r) elt ;; rest <- each vs' ;;
+                             match rest with VList l => Ok (VList (v :: l)) | _ => Unmodelled end
+               end) vs
+        | _ => Unmodelled
+        end
     | ETypeIn o classes => ov <- eval r o ;; b <- type_in_names ov classes ;; Ok (VBool b)
     | EUnsupported _ => Unmodelled
     end.
@@ -320,16 +348,19 @@ Section Interp.
         end
     | SFor x it body =>
         of_res (eval r it) (fun v =>
-          match v with
-          | VList vs | VTuple vs =>
+          match (match v with VList vs | VTuple vs => Some vs | VDict m => Some (map fst m) | _ => None end) with
+          | Some vs =>
               (fix loop (vs : list pv) (r : env) : outcome :=
                  match vs with
                  | [] => ONormal r
                  | a :: vs' => match execs ((x, a) :: r) body with ONormal r' => loop vs' r' | o => o end
                  end) vs r
-          | _ => OUnmod
+          | None => OUnmod
           end)
     | SPass => ONormal r
+    | SAssert e => of_res (eval r e) (fun v => match truth v with
+                                              | Ok true => ONormal r | Ok false => ORaise AssertionError
+                                              | Err e => ORaise e | Unmodelled => OUnmod end)
     | SUnsupported _ => OUnmod
     end.
 
